@@ -2291,7 +2291,12 @@ func vlGenValidateCase(r *hx.Rng) *vlVcase {
 	return c
 }
 
+// vlReseed decorrelates consecutive seeds: hx.NewRng(s+1) is hx.NewRng(s) advanced by one draw, so without this
+// the seeds s, s+1, s+2 of the thorough tier would generate the same cases shifted by one.
+func vlReseed(rng *hx.Rng) *hx.Rng { return hx.NewRng(rng.U64() ^ 0x5bd1e9955bd1e995) }
+
 func vlValueGen(rng *hx.Rng, n int, tier string, w *hx.Writer) {
+	rng = vlReseed(rng)
 	for i := 0; i < n; i++ {
 		r := rng.Fork()
 		if r.P(1, 8) {
@@ -2304,6 +2309,7 @@ func vlValueGen(rng *hx.Rng, n int, tier string, w *hx.Writer) {
 
 func init() {
 	register(&Sub{Name: "valueexpr", Gen: func(rng *hx.Rng, n int, tier string, w *hx.Writer) {
+		rng = vlReseed(rng)
 		for i := 0; i < n; i++ {
 			r := rng.Fork()
 			if i%2 == 0 {
